@@ -74,9 +74,11 @@ CONF = {
     "mc": [
         # the loop transcription (any order of sources / pods, failing evictions) satisfies the predicates:
         # absolute 20/80 + prod 10/15, 3 nodes of two capacities, 4 pods, anomaly none / 2, 4 rounds
-        {"module": "MC_Rebalance", "cfg": {"quick": "MC_abs_quick.cfg", "thorough": "MC_abs_thorough.cfg"}, "timeout": 1500},
+        {"module": "MC_Rebalance", "cfg": {"quick": "MC_abs_quick.cfg", "thorough": "MC_abs_thorough.cfg"}, "timeout": 1500,
+         "coverage": True},
         # deviation thresholds 10 (prod 5) around the pool average
-        {"module": "MC_Rebalance", "cfg": {"quick": "MC_dev_quick.cfg", "thorough": "MC_dev_thorough.cfg"}, "timeout": 1500},
+        {"module": "MC_Rebalance", "cfg": {"quick": "MC_dev_quick.cfg", "thorough": "MC_dev_thorough.cfg"}, "timeout": 1500,
+         "coverage": True},
         # NodeFit (any subset removable), stale metrics, NumberOfNodes = 1, second pod set
         {"module": "MC_Rebalance", "cfg": {"quick": None, "thorough": "MC_fit_thorough.cfg"}, "timeout": 1500},
         # 5 rounds, anomaly 2 / 3, ConsecutiveNormalities 2
@@ -84,7 +86,8 @@ CONF = {
     ],
     "go": [{"pkg": "pkg/descheduler/framework/plugins/loadaware", "test": "TestVerifC18",
             "timeout": {"quick": 900, "thorough": 1800}}],
-    "trace": {"module": "RebalanceTrace", "cfg": "Trace.cfg", "timeout": {"quick": 900, "thorough": 2400}},
+    "trace": {"module": "RebalanceTrace", "cfg": "Trace.cfg", "timeout": {"quick": 900, "thorough": 2400},
+              "chunk_events": 60000},      # bounded memory per TLC run (the machine is shared)
     "signature": sig,
     "rule": "one segment per plugin life: reset = thresholds / anomaly configuration, then 3..8 successive rounds of the real "
             "LowNodeLoad.Balance, each logged as its inputs followed by the ordered Evict calls of the recording evictor; "
